@@ -87,17 +87,20 @@ Routes == {r \in [fam : Fams, hasSrc : BOOLEAN, src : Addrs, dst : Addrs, ll : B
 Init == /\ binds \in {bs \in UNION {[1..n -> {b \in BindReqs : Canon(b)}] : n \in 0..MaxSocks} : BindOk(bs)}
         /\ table = Table(binds) /\ closed = FALSE /\ last = [valid |-> FALSE, req |-> NoReq, out |-> NoRoute]
 
-Send(r) == /\ ~closed
+\* (`last` only records the outcome; binds / table never change, so one dispatch per behaviour
+\*  loses nothing: Fresh keeps the state graph a star instead of a clique)
+Fresh == ~closed /\ ~last.valid
+Send(r) == /\ Fresh
            /\ last' = [valid |-> TRUE, req |-> r, out |-> RouteImpl(binds, table, r)]
            /\ UNCHANGED <<binds, table, closed>>
 \* FourTuple::Relay: every relay sender is asked in turn, the first that is ready takes the datagram
-SendRelay == /\ ~closed
+SendRelay == /\ Fresh
              /\ last' = [valid |-> TRUE, req |-> [NoReq EXCEPT !.fam = "relay"],
                          out |-> IF NRelay > 0 THEN [kind |-> "relay", idx |-> 1] ELSE [kind |-> "drop", idx |-> 0]]
              /\ UNCHANGED <<binds, table, closed>>
 \* FourTuple::Custom: the first custom sender whose is_valid_send_addr accepts the address
 SendCustom(id) ==
-  /\ ~closed
+  /\ Fresh
   /\ LET C == {i \in 1..Len(CustomIds) : CustomIds[i] = id} IN
      last' = [valid |-> TRUE, req |-> [NoReq EXCEPT !.fam = "custom", !.dst = id],
               out |-> IF C = {} THEN [kind |-> "drop", idx |-> 0]
